@@ -122,6 +122,20 @@ func (c *GenConfig) genOps(r *rng.R, n int, depth int, uniq *int) []Op {
 			default:
 				op := mk("map.range", o)
 				op.Cb = nested()
+				if depth == 0 && c.Nested && r.Chance(1, 5) {
+					// churn: every callback deletes all keys and stores them again (new entries, which Range may
+					// visit or skip - but "no key will be visited more than once")
+					for q := 0; q < 3; q++ {
+						ops = append(ops, mk("map.store", o, q, next()))
+					}
+					op.Cb = []Op{}
+					for q := 0; q < 4; q++ {
+						op.Cb = append(op.Cb, mk("map.delete", o, q))
+					}
+					for q := 0; q < 4; q++ {
+						op.Cb = append(op.Cb, mk("map.store", o, q, next()))
+					}
+				}
 				if r.Chance(1, 2) {
 					op.Cb = append([]Op{mk("yield", 0)}, op.Cb...)
 				}
